@@ -186,8 +186,9 @@ def canon_signature(exe, sig, detail):
 
 
 # ------------------------------------------------------------------------------------------ running jobs
-def run_vrt_scenario(exe, scen, job, deadline_s, outdir):
+def run_vrt_scenario(exe, scen, job, deadline_abs, outdir):
     out = os.path.join(outdir, scen + '.json')
+    deadline_s = max(5.0, deadline_abs - time.time())  # what is left of the check's budget when this scenario starts
     cmd = [exe, '--run', scen, '--workers', str(job.get('workers', 16)), '--deadline', f'{deadline_s:.0f}', '--json', out]
     if job.get('unbounded'):
         cmd += ['--unbounded']
@@ -276,7 +277,7 @@ def main():
                 continue
             par = max(1, 16 // job.get('workers', 16))
             # every scenario may use the whole remaining budget of the check: the runtime reports what it completed
-            per_scen_deadline = remaining
+            per_scen_deadline = time.time() + remaining
             with cf.ThreadPoolExecutor(max_workers=par) as ex:
                 results = list(ex.map(lambda s: run_vrt_scenario(exe, s, job, per_scen_deadline, outdir), scens))
             jstat = dict(tu=job['tu'], engine='vrt', scenarios=len(scens), bound=('unbounded' if job.get('unbounded') else job['bound']),
